@@ -332,6 +332,73 @@ def h_identity(I, job):
     I.reach('end')
 
 
+def install_snprintf_exact(I):
+    """snprintf("%.*f", precision, value) for concrete arguments: the exact C text (Python's % formatting is the same correctly rounded conversion)"""
+    def snprintf_(I_, buf, size, fmt, *va):
+        size = I.concretize(size, 'size'); prec = I.concretize(va[0], 'precision'); v = va[1]
+        if not isinstance(v, float): raise Exception('text geometry harness: symbolic double reached snprintf')
+        text = ('%.*f' % (prec, v)).encode()
+        w = min(len(text), size - 1) if size else 0
+        for k in range(w): I.store(buf + k, i8, text[k])
+        if size: I.store(buf + w, i8, 0)
+        return len(text)
+    I.models['snprintf'] = snprintf_
+
+
+def num(v): return ('%.7f' % float(v)).rstrip('0').rstrip('.') if '.' in ('%.7f' % float(v)) else '%d' % v
+
+
+def h_text_geom(I, job):
+    """WKT / GeoJSON text of a way / area with concrete small coordinates and a symbolic duplicate pattern, against a reference text"""
+    fmt, what, un, dr = job['format'], job['what'], job['un'], job['dir']
+    def mkpoints(n, base, closed):
+        pts = []
+        for k in range(n):
+            if closed and k == n - 1: pts.append(pts[0]); continue
+            dup = I.concretize(I.named('dup%d_%d' % (base, k), 1), 'duplicate of the previous point') if k > 0 else 0
+            pts.append(pts[-1] if dup else (base + k + 1, -(base + 20 + k)))
+        return pts
+    def dedup(pts): return [p for k, p in enumerate(pts) if k == 0 or p != pts[k - 1]]
+    pt = (lambda p: '%s %s' % (num(p[0]), num(p[1]))) if fmt == 0 else (lambda p: '[%s,%s]' % (num(p[0]), num(p[1])))
+    if what == 3:
+        rings = job['rings']; kinds = job['kinds']; allpts = []; per = []
+        for r, n in enumerate(rings): ps = mkpoints(n, 10 * r, True); per.append(ps); allpts += ps
+        n = len(allpts)
+    else:
+        n = job['n']; allpts = mkpoints(n, 0, what == 2); rings = []; kinds = []
+    xy = I.new_obj(8 * n, 'xy', 'heap')
+    for k, (x, y) in enumerate(allpts): I.store(xy + 8 * k, i32, x & 0xffffffff); I.store(xy + 8 * k + 4, i32, y & 0xffffffff)
+    rm = I.new_obj(4 * max(len(rings), 1), 'rings', 'heap'); km = I.new_obj(max(len(kinds), 1), 'kinds', 'heap')
+    for k, r in enumerate(rings): I.store(rm + 4 * k, i32, r); I.store(km + k, i8, kinds[k])
+    out = I.new_obj(1024, 'out', 'heap'); ol = I.new_obj(4, 'ol', 'heap')
+    rc = I.concretize(I.call('@verif_text_geom', [fmt, what, un, dr, xy, n, rm, km, len(rings), out, 1024, ol]), 'rc'); I.observe('rc', rc)
+    # reference
+    if what == 0: want_rc, text = 0, ('POINT(%s)' % pt(allpts[0]) if fmt == 0 else '{"type":"Point","coordinates":%s}' % pt(allpts[0]))
+    elif what in (1, 2):
+        seq = list(reversed(allpts)) if dr else allpts
+        seq = dedup(seq) if un else seq
+        want_rc = 0 if len(seq) >= (2 if what == 1 else 4) else 1
+        body = ','.join(pt(p) for p in seq)
+        if fmt == 0: text = ('LINESTRING(%s)' if what == 1 else 'POLYGON((%s))') % body
+        else: text = ('{"type":"LineString","coordinates":[%s]}' if what == 1 else '{"type":"Polygon","coordinates":[[%s]]}') % body
+    else:
+        want_rc = 0; polys = []
+        for r, ps in enumerate(per):
+            ring = ','.join(pt(p) for p in dedup(ps))
+            if kinds[r] == 0: polys.append([ring])
+            else: polys[-1].append(ring)
+        if fmt == 0: text = 'MULTIPOLYGON(%s)' % ','.join('(%s)' % ','.join('(%s)' % rg for rg in pg) for pg in polys)
+        else: text = '{"type":"MultiPolygon","coordinates":[%s]}' % ','.join('[%s]' % ','.join('[%s]' % rg for rg in pg) for pg in polys)
+    if rc != want_rc: raise Finding('verdict', 'factory returns %s, reference says %s (0 ok, 1 geometry_error)' % (rc, want_rc))
+    if rc == 0:
+        ln = I.concretize(I.load(ol, i32), 'len')
+        got = bytes(I.concretize(I.load(out + k, i8), 'ch') for k in range(ln)).decode('latin-1')
+        I.observe('text', got)
+        if got != text: raise Finding('text', '%s output %r differs from the reference %r' % ('WKT' if fmt == 0 else 'GeoJSON', got, text))
+        I.reach('ok')
+    I.reach('end')
+
+
 def harnesses(tier):
     global FITLEN
     q = tier == 'quick'
@@ -354,6 +421,12 @@ def harnesses(tier):
     hs.append(Harness('wkb', 'geom', h_wkb, jobs=wj, opaque_fp=True, reach=('end', 'ok'),
                       desc='real WKBFactoryImpl (WKB / EWKB, binary / hex) read back by an independent WKB reader, also on a factory object that has rejected degenerate objects before: type words, SRID, back-patched counts equal the encoded elements, coordinates in order',
                       bounds='ways of <= 4 nodes, one area with 3 rings', wall=900))
+    tj = [dict(format=f, what=0, un=0, dir=0, n=1) for f in (0, 1)] + [dict(format=f, what=w, un=u, dir=d, n=n) for f in (0, 1) for (w, n) in ((1, 3), (2, 5)) for u in (0, 1) for d in (0, 1)] \
+         + [dict(format=f, what=3, un=1, dir=0, rings=r, kinds=k) for f in (0, 1) for (r, k) in (([4], [0]), ([4, 4], [0, 1]), ([4, 4, 4], [0, 1, 0]), ([5, 4, 4], [0, 1, 1]))]
+    hs.append(Harness('text_geometry', 'geom', h_text_geom, jobs=tj, setup=install_snprintf_exact, reach=('end', 'ok'), native_ok=True,
+                      tests=[dict(_job=2, dup0_1=0, dup0_2=1), dict(_job=len(tj) - 1, **{'dup%d_%d' % (b, k): 0 for b in (0, 10, 20) for k in range(1, 5)})],
+                      desc='the WKT and GeoJSON factories (real WKTFactoryImpl / GeoJSONFactoryImpl under GeometryFactory) on points, linestrings, polygons ({all, unique} x {forward, backward}) and multipolygons (1-3 rings, inner rings under their outer ring) with concrete small coordinates and a symbolic pattern of consecutive duplicate points: the text equals the reference text (prefix, brackets, separators, coordinate order, ring / polygon grouping, duplicate suppression, reversal) or geometry_error for too few points',
+                      bounds='3-point linestrings, 5-point closed ways, rings of 4-5 points; integer coordinates (so that the decimal text is exact); snprintf is an exact model of "%.*f" on concrete doubles; double2string itself is decided separately'))
     hs.append(Harness('identity_projection', 'geom', h_identity, mode='INT', reach=('end', 'accepted', 'rejected'),
                       tests=[dict(x=1800000000, y=900000000), dict(x=1800000001, y=0), dict(x=0, y=-900000001), dict(x=2147483647, y=2147483647), dict(x=-5, y=7)],
                       desc='IdentityProjection (the default projection of the WKB, WKT and GeoJSON factories) on every int32 x, y: invalid_location iff the location is outside +-180 / +-90 degrees or undefined; otherwise lon = x / 10^7 and lat = y / 10^7',
